@@ -1,6 +1,6 @@
 CONSTANTS Family = "flat"  MaxPorts = 4
 INIT Init
 NEXT Next
-INVARIANT Laws
+INVARIANT Laws RouteLaws
 CONSTRAINT Emit
 CHECK_DEADLOCK FALSE
